@@ -8,4 +8,6 @@
    This file only collects the pieces Proofs/C01Source_<Piece>.v (one per translated function), so that a file of another
    property that needs the link of one function (Plate.merge needs encode_1d_array_to_0_indexed_ids) imports that piece alone. *)
 From Batchie Require Export Proofs.C01Source_Base Proofs.C01Source_ValidIds Proofs.C01Source_Treatments
-  Proofs.C01Source_Encode1d Proofs.C01Source_Init Proofs.C01Source_Space.
+  Proofs.C01Source_Encode1d Proofs.C01Source_Init Proofs.C01Source_Space
+  Proofs.C01Source_SpaceBase Proofs.C01Source_SpaceInit Proofs.C01Source_SpaceCounts Proofs.C01Source_SpaceByName
+  Proofs.C01Source_SpaceSampleLookup.
